@@ -525,3 +525,49 @@ def run_printer(name, clause):
         if bad:
             break
     _finish(bad[:1], '_pyast statement printer')
+
+
+# ---- Topology._locate ------------------------------------------------------------------------------------------------------------
+
+def locate_cases():
+    """(description, problem or None) for the real Topology._locate on a triangle mesh, serial and with 3 processes"""
+    import numpy, io, contextlib
+    from nutils import mesh, parallel, topology
+    domain, geom = mesh.unitsquare(3, 'triangle')
+    inside = numpy.array([[.1, .2], [.5, .55], [.9, .3], [.3, .8], [.7, .75], [.25, .25]])
+    outside = numpy.array([[1.5, .5]])
+    mixed = numpy.concatenate([inside[:2], outside, inside[2:], outside + 1])
+    out = []
+    for nprocs in (1, 3):
+        with parallel.maxprocs(nprocs), contextlib.redirect_stdout(io.StringIO()), contextlib.redirect_stderr(io.StringIO()):
+            what = 'maxprocs %d: ' % nprocs
+            try:
+                smp = domain.locate(geom, inside, eps=1e-10)
+                got = smp.eval(geom)
+                ok = smp.npoints == len(inside) and numpy.allclose(got, inside, atol=1e-7)
+                out.append((what + 'all points inside', None if ok else 'located sample evaluates to %r instead of the requested points' % (got.tolist(),)))
+            except Exception as e:
+                out.append((what + 'all points inside', 'raised %r' % (e,)))
+            try:
+                smp = domain.locate(geom, mixed, eps=1e-10)
+                out.append((what + 'two points outside, skip_missing=False', 'returned a sample of %d points instead of raising' % smp.npoints))
+            except Exception as e:
+                out.append((what + 'two points outside, skip_missing=False', None if isinstance(e, (topology.LocateError, Exception)) else repr(e)))
+            try:
+                smp = domain.locate(geom, mixed, eps=1e-10, skip_missing=True)
+                got = smp.eval(geom)
+                ok = smp.npoints == len(inside) and numpy.allclose(got, inside, atol=1e-7)
+                out.append((what + 'two points outside, skip_missing=True', None if ok else 'sample of %d points evaluating to %r, expected the %d inside points' % (smp.npoints, got.tolist(), len(inside))))
+            except Exception as e:
+                out.append((what + 'two points outside, skip_missing=True', 'raised %r' % (e,)))
+    return out
+
+
+def run_locate(clause):
+    print('clause:', clause)
+    bad = []
+    for what, problem in locate_cases():
+        print('%-60s %s' % (what, 'ok' if problem is None else problem))
+        if problem is not None:
+            bad.append('%s: %s' % (what, problem))
+    _finish(bad, 'Topology._locate')
